@@ -186,7 +186,73 @@ func c24Gen(rng *core.Rng, tier string) *harness.Plan {
 		sortOps(p)
 		return p
 	}
+	// (c24RollbackPlan, a node restored from an older disk image, is not drawn: see DESIGN.md 0.7)
 	// bursts produce overlapping batches on one proposer
+	return c24Bursts(rng, tier, p, dur)
+}
+
+// c24Directed: the restore-from-backup scenario is part of every batch.
+func c24Directed(tier string, seed uint64) []*harness.Plan {
+	n := 2
+	if tier == "thorough" {
+		n = 6
+	}
+	var out []*harness.Plan
+	for i := 0; i < n; i++ {
+		rng := core.NewRng(core.SplitMix64(seed ^ core.SplitMix64(uint64(i)+0xc24d)))
+		p := &harness.Plan{Seed: rng.Uint64(), Params: map[string]int64{}}
+		baseClusterParams(rng, p)
+		delete(p.Params, "drop_ppm")
+		p.Params["hold_on_partition"] = 1
+		dur := time.Duration(40+rng.IntN(30)) * time.Second
+		p.Params["dur_ms"] = int64(dur / time.Millisecond)
+		c24RollbackPlan(rng, p, dur)
+		out = append(out, p)
+	}
+	return out
+}
+
+func c24RollbackPlan(rng *core.Rng, p *harness.Plan, dur time.Duration) {
+	{
+		// a node restored from an older disk image: the operator takes a backup (stop, copy, start), the
+		// node goes on proposing for a while, then it is stopped and started from the backup. Its peers
+		// now know more of its own chain than it does; what it is handed right after the restart must
+		// wait until it has caught up (its proposals are deferred) and must not get lost.
+		p.Params["rollback"] = 1
+		for k := range p.Params {
+			if k == "dup_ppm" || k == "reorder_ppm" {
+				delete(p.Params, k)
+			}
+		}
+		target := rng.IntN(9)
+		backup := rng.Dur(4*time.Second, 8*time.Second)
+		restore := backup + rng.Dur(10*time.Second, 20*time.Second)
+		p.Ops = append(p.Ops, harness.Op{At: int64(backup / time.Microsecond), Kind: "diskbackup", N: target})
+		p.Ops = append(p.Ops, harness.Op{At: int64(restore / time.Microsecond), Kind: "diskrestore", N: target, A: int64(rng.IntN(2000))})
+		n := 0
+		for at := 2 * time.Second; at < restore-time.Second; at += rng.Dur(500*time.Millisecond, 2*time.Second) {
+			who := rng.IntN(9)
+			if rng.Chance(0.5) {
+				who = target
+			}
+			n++
+			p.Ops = append(p.Ops, harness.Op{At: int64(at / time.Microsecond), Kind: "deposit", S: fmt.Sprint("pre", n), N: who, A: int64(rng.IntN(4)), B: int64(rng.IntN(2000)), C: int64(rng.IntN(4))})
+		}
+		for k := 0; k < 8+rng.IntN(5); k++ {
+			at := restore + rng.Dur(2300*time.Millisecond, 7500*time.Millisecond)
+			p.Ops = append(p.Ops, harness.Op{At: int64(at / time.Microsecond), Kind: "deposit", S: fmt.Sprint("post", k), N: target, A: int64(rng.IntN(4)), B: int64(rng.IntN(2000)), C: int64(rng.IntN(4))})
+		}
+		// the peers do not send a node again what it confirmed within the last hour: the restored node gets
+		// the snapshots it lost only after that; the idle hour is skipped
+		p.Ops = append(p.Ops, harness.Op{At: int64((restore + 8*time.Second) / time.Microsecond), Kind: "jumpall", A: 3700})
+		if d := restore + 20*time.Second; d > dur {
+			p.Params["dur_ms"] = int64(d / time.Millisecond)
+		}
+		sortOps(p)
+	}
+}
+
+func c24Bursts(rng *core.Rng, tier string, p *harness.Plan, dur time.Duration) *harness.Plan {
 	seq := 0
 	for b := 0; b < 2+rng.IntN(4); b++ {
 		at := rng.Dur(2*time.Second, dur-6*time.Second)
@@ -276,7 +342,7 @@ func c24Exec(p *harness.Plan) *harness.Outcome {
 	r.out.Probes["accepted_finalized"] += fin
 	r.out.Probes["accepted_total"] += total
 	relabelPanic(r, "C24")
-	return r.finish((mon.retired > 0 || p.P("quiet", 0) == 1) && fin > 0, map[string]any{"retired": mon.retired, "requeued_members": mon.requeued, "withheld": mon.withheld, "finalized": fin, "accepted": total})
+	return r.finish((mon.retired > 0 || p.P("quiet", 0) == 1 || p.P("rollback", 0) == 1) && fin > 0, map[string]any{"retired": mon.retired, "requeued_members": mon.requeued, "withheld": mon.withheld, "finalized": fin, "accepted": total})
 }
 
 func init() {
